@@ -725,7 +725,7 @@ def check_case(ctx: runner.Ctx, case):  # noqa: C901, PLR0912, PLR0915
     feature = ("nested" if len(ctxs) > 1 else "cls" if plan.cls_shape else "ops" if plan.ops else "plain_retort")
 
     # ---- run the real thing
-    status, got, got_log, func = run_real(plan, direction, req, logged, datum)
+    status, got, got_log, func = run_real(plan, direction, req, logged, datum, call=kind == "value")
     if status not in ("ok", "not_found"):
         vkind, e = status
         ctx.violation(vkind, (type(e).__name__, exc_site(e), direction), case,
@@ -750,7 +750,8 @@ def check_case(ctx: runner.Ctx, case):  # noqa: C901, PLR0912, PLR0915
             where = "routing"
         other = dict(case, dir="dump" if direction == "load" else "load")
         dirs = "both_directions" if not agrees(other) else f"{direction}_only"
-        got_txt = "ProviderNotFoundError" if status == "not_found" else digits(got)
+        got_txt = "ProviderNotFoundError" if status == "not_found" else \
+            digits(got) if kind == "value" else "a loader/dumper was produced"
         ctx.violation("resolution_mismatch", (explained, diff, where, dirs), case,
                       f"request={req} dir={direction} outcome got={got_txt} expected={expected}; "
                       f"consultation log got={fmt_log(got_log) if logged else 'n/a'} expected={fmt_log(ref_log)}"
@@ -790,7 +791,7 @@ def check_case(ctx: runner.Ctx, case):  # noqa: C901, PLR0912, PLR0915
                               f"reference recipe={top.seq} options strict={top.strict} debug={top.debug}")
 
 
-def run_real(plan: Plan, direction, req, logged, datum):
+def run_real(plan: Plan, direction, req, logged, datum, call=True):
     """-> (status, value, {stack: [sequence per send]}, loader-or-dumper);
     status: 'ok' | 'not_found' (the facade raised ProviderNotFoundError) | (violation kind, exception)"""
     builder = Builder(direction, logged)
@@ -803,6 +804,8 @@ def run_real(plan: Plan, direction, req, logged, datum):
     except Exception as e:  # noqa: BLE001 -- resolution either succeeds or reports ProviderNotFoundError
         return ("resolution_failed", e), None, None, None
     creation_log = list(builder.log)
+    if not call:  # the outcome "a loader / dumper was produced" is all that is compared
+        return "ok", None, per_send(creation_log), func
     try:
         got = func(datum)
     except Exception as e:  # noqa: BLE001 -- markers and builtin providers accept the main datum by construction
@@ -820,7 +823,7 @@ def agrees(case) -> bool:
     kind, tree, ref = reference(top, direction, req)
     by_idx = {e.idx: e for c in plan.all_ctx(top) for e in c.seq}
     datum = main_datum(req, direction)
-    status, got, got_log, _ = run_real(plan, direction, req, logged, datum)
+    status, got, got_log, _ = run_real(plan, direction, req, logged, datum, call=kind == "value")
     if status not in ("ok", "not_found"):
         return False
     return compare(kind, tree, ref, by_idx, status, got, got_log, logged, datum)[0]
